@@ -73,7 +73,7 @@ NA = {
 PENDING = []
 
 CERT = (" PLUS the certificate engine (second engine, DESIGN 8.2): the real Solver::solve (dev and release builds, real dependencies) is run on every universe of an "
-        "enumerated bounded family (150 per family quick, 4000 thorough; families plain/full/wide/hints/hard/soft/reuse) and z3 decides over ALL selections of the solvables: ")
+        "enumerated bounded family (400 per family quick, 5000 thorough; families plain/full/wide/hints/hard/deep/lazycon/soft/reuse) and z3 decides over ALL selections of the solvables: ")
 CERT_NOTE = " Certificate engine: universes are enumerated by a seeded generator (not symbolic); Spec(U) is written from the text of C01; read-only dump accessors are attached to the scratch copy under cfg(verif_cert); z3 (python3-vt) trusted, `unknown` => inconclusive."
 CHECKS["C01"]["text"] += CERT + "the returned solution satisfies Spec(U), and the clause database emitted by the real Encoder implies Spec(U) restricted to everything that was fetched (no requirement, constrains entry, lock, exclusion or one-per-package fact is missing)."
 CHECKS["C01"]["note"] += CERT_NOTE
